@@ -1,5 +1,7 @@
 use crate::util::{Ctx, Report};
 
+pub mod c06; pub mod c19;
+pub mod c02;
 pub mod c07;
 pub mod c08;
 pub mod c09;
@@ -10,6 +12,8 @@ pub mod c17;
 
 pub fn run(prop: &str, ctx: &Ctx, report: &mut Report) {
     match prop {
+        "C06" => c06::run(ctx, report), "C19" => c19::run(ctx, report),
+        "C02" => c02::run(ctx, report),
         "C07" => c07::run(ctx, report),
         "C08" => c08::run(ctx, report),
         "C09" => c09::run(ctx, report),
